@@ -450,7 +450,7 @@ impl Harness {
     }
 
     /// run a history on a fresh log directory; the live handle is returned for the read_page oracle
-    fn exec(&mut self, ops: &[Op], nosync: bool, perturb: u8) -> (Result<Wal, String>, Model) {
+    fn exec(&mut self, ops: &[Op], nosync: bool) -> (Result<Wal, String>, Model) {
         let _ = std::fs::remove_dir_all(&self.dir);
         let mut model = Model::new();
         let dir = self.dir.clone();
@@ -490,14 +490,7 @@ impl Harness {
                         res_str(vcore::catch(|| wal.rotate_segment()))
                     }
                     Op::Trunc => {
-                        if perturb == 1 {
-                            // planted model perturbation (self-test only): truncate forgets to drop closed segments
-                            let s = model.segs.last().unwrap().0;
-                            model.segs.last_mut().unwrap().1.clear();
-                            let _ = s;
-                        } else {
-                            model.truncate();
-                        }
+                        model.truncate();
                         res_str(vcore::catch(|| wal.truncate()))
                     }
                     Op::Reopen => {
@@ -615,8 +608,8 @@ fn read_page_oracle(wal: &Wal, model: &Model, nosync: bool) -> Option<Div> {
 }
 
 /// execute one history and evaluate every oracle layer on its end state
-fn eval_node(h: &mut Harness, ops: &[Op], nosync: bool, perturb: u8, want_rp: bool, want_replay: bool) -> NodeRes {
-    let (wal, model) = h.exec(ops, nosync, perturb);
+fn eval_node(h: &mut Harness, ops: &[Op], nosync: bool, want_rp: bool, want_replay: bool) -> NodeRes {
+    let (wal, model) = h.exec(ops, nosync);
     let wal = match wal {
         Ok(w) => w,
         Err(e) => {
@@ -641,8 +634,8 @@ enum Layer {
     ReadPage,
 }
 
-fn shows(h: &mut Harness, ops: &[Op], nosync: bool, layer: Layer, class: &str, perturb: u8) -> bool {
-    let r = eval_node(h, ops, nosync, perturb, layer == Layer::ReadPage, layer == Layer::Replay);
+fn shows(h: &mut Harness, ops: &[Op], nosync: bool, layer: Layer, class: &str) -> bool {
+    let r = eval_node(h, ops, nosync, layer == Layer::ReadPage, layer == Layer::Replay);
     if layer == Layer::ReadPage && r.replay.as_ref().map(|d| d.class.starts_with("op-")).unwrap_or(false) {
         return false;
     }
@@ -655,12 +648,12 @@ fn shows(h: &mut Harness, ops: &[Op], nosync: bool, layer: Layer, class: &str, p
 
 /// deterministic 1-minimal shrink (drop an op / simplify an op / drop the no-sync mode)
 /// preserving layer + class at the end of the history
-fn shrink(h: &mut Harness, ops: &[Op], nosync: bool, layer: Layer, class: &str, perturb: u8) -> (Vec<Op>, bool) {
+fn shrink(h: &mut Harness, ops: &[Op], nosync: bool, layer: Layer, class: &str) -> (Vec<Op>, bool) {
     let mut cur = ops.to_vec();
     let mut ns = nosync;
     loop {
         let mut changed = false;
-        if ns && shows(h, &cur, false, layer, class, perturb) {
+        if ns && shows(h, &cur, false, layer, class) {
             ns = false;
             changed = true;
         }
@@ -671,7 +664,7 @@ fn shrink(h: &mut Harness, ops: &[Op], nosync: bool, layer: Layer, class: &str, 
                 }
                 let mut c = cur.clone();
                 c.remove(i);
-                if shows(h, &c, ns, layer, class, perturb) {
+                if shows(h, &c, ns, layer, class) {
                     cur = c;
                     changed = true;
                     break;
@@ -683,7 +676,7 @@ fn shrink(h: &mut Harness, ops: &[Op], nosync: bool, layer: Layer, class: &str, 
                 for s in cur[i].simpler() {
                     let mut c = cur.clone();
                     c[i] = s;
-                    if shows(h, &c, ns, layer, class, perturb) {
+                    if shows(h, &c, ns, layer, class) {
                         cur = c;
                         changed = true;
                         break 'outer;
@@ -697,8 +690,8 @@ fn shrink(h: &mut Harness, ops: &[Op], nosync: bool, layer: Layer, class: &str, 
     }
 }
 
-fn report_div(h: &mut Harness, rep: &mut Reporter, alpha: &str, ops: &[Op], nosync: bool, layer: Layer, d: &Div, perturb: u8) {
-    let (min, ns) = shrink(h, ops, nosync, layer, &d.class, perturb);
+fn report_div(h: &mut Harness, rep: &mut Reporter, alpha: &str, ops: &[Op], nosync: bool, layer: Layer, d: &Div) {
+    let (min, ns) = shrink(h, ops, nosync, layer, &d.class);
     let sig = format!("C03/history/{}/{}", pattern(&min, ns), d.class);
     let oracle = match layer {
         Layer::Replay => "replay",
@@ -726,14 +719,14 @@ fn subtree(alpha: usize, remaining: usize) -> u64 {
 }
 
 /// process one node; returns the child entry when the history may be extended
-fn visit(h: &mut Harness, rep: &mut Reporter, alpha: &str, nosync: bool, parent: &Node, op: Op, report: bool, perturb: u8, rp_depth: usize) -> (Option<Node>, bool) {
+fn visit(h: &mut Harness, rep: &mut Reporter, alpha: &str, nosync: bool, parent: &Node, op: Op, report: bool, rp_depth: usize) -> (Option<Node>, bool) {
     let mut ops = parent.ops.clone();
     ops.push(op);
     if report {
         rep.begin_case(&json!({"part": "history", "alphabet": alpha, "nosync": nosync, "ops": enc_ops(&ops)}).to_string());
     }
     let want_rp = !parent.rp_div && ops.len() <= rp_depth;
-    let r = eval_node(h, &ops, nosync, perturb, want_rp, true);
+    let r = eval_node(h, &ops, nosync, want_rp, true);
     if report && want_rp {
         rep.count("histories_with_read_page_oracle", 1);
     }
@@ -769,7 +762,7 @@ fn visit(h: &mut Harness, rep: &mut Reporter, alpha: &str, nosync: bool, parent:
             if report {
                 rep.outcome(&format!("diverged:{}", d.class));
                 rep.count("read_page_divergences", 1);
-                report_div(h, rep, alpha, &ops, nosync, Layer::ReadPage, d, perturb);
+                report_div(h, rep, alpha, &ops, nosync, Layer::ReadPage, d);
             }
         }
     }
@@ -777,7 +770,7 @@ fn visit(h: &mut Harness, rep: &mut Reporter, alpha: &str, nosync: bool, parent:
         if report {
             rep.outcome(&format!("diverged:{}", d.class));
             rep.count("replay_divergences", 1);
-            report_div(h, rep, alpha, &ops, nosync, Layer::Replay, d, perturb);
+            report_div(h, rep, alpha, &ops, nosync, Layer::Replay, d);
         }
         return (None, true);
     }
@@ -789,7 +782,7 @@ fn visit(h: &mut Harness, rep: &mut Reporter, alpha: &str, nosync: bool, parent:
     (Some(Node { ops, rp_div }), false)
 }
 
-fn explore(ctx: &Ctx, h: &mut Harness, rep: &mut Reporter, alpha: &str, nosync: bool, depth: usize, perturb: u8, rp_depth: usize) -> bool {
+fn explore(ctx: &Ctx, h: &mut Harness, rep: &mut Reporter, alpha: &str, nosync: bool, depth: usize, rp_depth: usize) -> bool {
     let ab = alphabet(alpha);
     let split = 3usize.min(depth);
     let mut frontier = vec![Node { ops: vec![], rp_div: false }];
@@ -805,7 +798,7 @@ fn explore(ctx: &Ctx, h: &mut Harness, rep: &mut Reporter, alpha: &str, nosync: 
                     continue;
                 }
                 let report = level >= split || owner;
-                let (child, pruned) = visit(h, rep, alpha, nosync, node, op, report, perturb, rp_depth);
+                let (child, pruned) = visit(h, rep, alpha, nosync, node, op, report, rp_depth);
                 if pruned && report {
                     rep.pruned(subtree(ab.len(), depth - level));
                 }
@@ -1000,7 +993,7 @@ fn undo_fault(segs: &[SegFile], f: &Fault) -> std::io::Result<()> {
 
 /// run the history, check that the files are exactly what the model says, then apply the given faults
 fn fault_state(h: &mut Harness, rep: &mut Reporter, ops: &[Op], only: Option<Fault>) {
-    let (wal, model) = h.exec(ops, false, 0);
+    let (wal, model) = h.exec(ops, false);
     let Ok(wal) = wal else {
         rep.count("fault_states_skipped_history_diverged", 1);
         return;
@@ -1097,8 +1090,12 @@ fn fault_state(h: &mut Harness, rep: &mut Reporter, ops: &[Op], only: Option<Fau
             s
         };
         if strict.len() < lenient.len() && classify(&expect_from(&lenient), &obs).is_none() {
-            rep.outcome("fault-diverged:later-segment-replayed");
-            rep.violation("C03", "corrupt-prefix", "C03/corrupt/bad-frame-in-earlier-segment/later-segment-replayed", case, &es.show(), &format!("{} | files: {}", obs.show(), files_now()));
+            // a cut exactly at a frame boundary leaves no bad frame behind (only the write-order gap);
+            // any other damage leaves a torn/invalid frame in the earlier segment
+            let clean_cut = matches!(*f, Fault::Trunc { off, .. } if off as usize % FS == 0);
+            let sig = if clean_cut { "C03/corrupt/earlier-segment-cut-at-frame-boundary/later-segment-replayed" } else { "C03/corrupt/bad-frame-in-earlier-segment/later-segment-replayed" };
+            rep.outcome(if clean_cut { "fault-diverged:later-segment-replayed-after-clean-cut" } else { "fault-diverged:later-segment-replayed-after-bad-frame" });
+            rep.violation("C03", "corrupt-prefix", sig, case, &es.show(), &format!("{} | files: {}", obs.show(), files_now()));
             continue;
         }
         let sig = if matches!(f, Fault::ZeroExtend { .. }) && (cls == "zero-frame-applied" || cls == "extra-frames-applied") {
@@ -1173,14 +1170,13 @@ impl Check for C03 {
 
     fn run(&self, ctx: &Ctx, rep: &mut Reporter) {
         let mut h = Harness::new(&ctx.scratch);
-        let perturb: u8 = ctx.opt("perturb").and_then(|s| s.parse().ok()).unwrap_or(0);
         for c in ["histories", "frames_written", "rotations", "truncations", "reopens", "reopen_appends", "corruptions_tried", "frames_applied_on_recovery", "fault_states", "fault_states_with_frames_in_several_segments", "corruptions_damaging_a_frame", "histories_ending_with_multiple_segments"] {
             rep.expect_nonzero(c);
         }
         let d_full = ctx.opt("depth").and_then(|s| s.parse().ok()).unwrap_or(ctx.tier.pick(4usize, 5usize));
         let d_nosync = ctx.opt("depth_nosync").and_then(|s| s.parse().ok()).unwrap_or(ctx.tier.pick(3usize, 4usize));
-        let d_medium = ctx.opt("depth_medium").and_then(|s| s.parse().ok()).unwrap_or(ctx.tier.pick(5usize, 6usize));
-        let d_small = ctx.opt("depth_small").and_then(|s| s.parse().ok()).unwrap_or(ctx.tier.pick(6usize, 7usize));
+        let d_medium = ctx.opt("depth_medium").and_then(|s| s.parse().ok()).unwrap_or(ctx.tier.pick(0usize, 6usize));
+        let d_small = ctx.opt("depth_small").and_then(|s| s.parse().ok()).unwrap_or(ctx.tier.pick(5usize, 7usize));
         let d_fault = ctx.opt("depth_fault").and_then(|s| s.parse().ok()).unwrap_or(ctx.tier.pick(3usize, 4usize));
         let d_rp = ctx.opt("depth_read_page").and_then(|s| s.parse().ok()).unwrap_or(ctx.tier.pick(3usize, 4usize));
         rep.bound("read_page_oracle_evaluated_up_to_history_length", json!(d_rp));
@@ -1196,18 +1192,18 @@ impl Check for C03 {
         let mut complete = true;
         if ctx.worker == 0 {
             // the empty history
-            let r = eval_node(&mut h, &[], false, perturb, true, true);
+            let r = eval_node(&mut h, &[], false, true, true);
             rep.case(0, false);
             if let Some(d) = r.replay {
                 rep.violation("C03", "replay", &format!("C03/history/[]/{}", d.class), || json!({"part": "history", "alphabet": "full", "nosync": false, "ops": []}), &d.expected, &d.observed);
             }
         }
         if only.is_empty() || only == "full" {
-            complete &= explore(ctx, &mut h, rep, "full", false, d_full, perturb, d_rp);
+            complete &= explore(ctx, &mut h, rep, "full", false, d_full, d_rp);
         }
         if complete && (only.is_empty() || only == "fault") {
             // part 2
-            let a_fault = ctx.opt("alphabet_fault").unwrap_or(ctx.tier.pick("medium", "full")).to_string();
+            let a_fault = ctx.opt("alphabet_fault").unwrap_or(ctx.tier.pick("medium", "medium")).to_string();
             rep.bound("fault_history_alphabet", json!(a_fault));
             let seeds = fault_seeds(&a_fault, d_fault);
             rep.bound("fault_file_shapes", json!(seeds.len()));
@@ -1224,13 +1220,13 @@ impl Check for C03 {
             }
         }
         if complete && (only.is_empty() || only == "nosync") {
-            complete &= explore(ctx, &mut h, rep, "full", true, d_nosync, perturb, d_rp.min(d_nosync.saturating_sub(1)));
+            complete &= explore(ctx, &mut h, rep, "full", true, d_nosync, d_rp.min(d_nosync.saturating_sub(1)));
         }
-        if complete && (only.is_empty() || only == "medium") {
-            complete &= explore(ctx, &mut h, rep, "medium", false, d_medium, perturb, d_rp);
+        if complete && d_medium > 0 && (only.is_empty() || only == "medium") {
+            complete &= explore(ctx, &mut h, rep, "medium", false, d_medium, d_rp);
         }
         if complete && (only.is_empty() || only == "small") {
-            explore(ctx, &mut h, rep, "small", false, d_small, perturb, d_rp);
+            explore(ctx, &mut h, rep, "small", false, d_small, d_rp);
         }
         rep.count("frames_applied_on_recovery", h.frames_applied);
         rep.count("operations_executed_including_reexecution", h.ops_executed);
@@ -1238,7 +1234,6 @@ impl Check for C03 {
 
     fn replay(&self, ctx: &Ctx, case: &Value, rep: &mut Reporter) {
         let mut h = Harness::new(&ctx.scratch);
-        let perturb: u8 = ctx.opt("perturb").and_then(|s| s.parse().ok()).unwrap_or(0);
         let ops = dec_ops(&case["ops"]);
         if case["part"].as_str() == Some("fault") {
             if let Some(f) = Fault::from_json(&case["fault"]) {
@@ -1252,7 +1247,7 @@ impl Check for C03 {
         // walk the prefixes exactly like the explorer does (first divergence is reported, then stop)
         let mut node = Node { ops: vec![], rp_div: false };
         if ops.is_empty() {
-            let r = eval_node(&mut h, &[], false, perturb, true, true);
+            let r = eval_node(&mut h, &[], false, true, true);
             rep.case(0, false);
             if let Some(d) = r.replay {
                 rep.violation("C03", "replay", &format!("C03/history/[]/{}", d.class), || case.clone(), &d.expected, &d.observed);
@@ -1260,7 +1255,7 @@ impl Check for C03 {
             return;
         }
         for &op in &ops {
-            let (child, _) = visit(&mut h, rep, &alpha, nosync, &node, op, true, perturb, usize::MAX);
+            let (child, _) = visit(&mut h, rep, &alpha, nosync, &node, op, true, usize::MAX);
             match child {
                 Some(c) => node = c,
                 None => break,
